@@ -21,9 +21,9 @@ CLAIMS = {
     "C01": ("proof",
             "Decided at the gates every insertion must pass: time-window/shift gate (accept => step simulation of the inserted leg feasible; complete over all f64 in [0,1e9] in the thorough tier, "
             "integer-valued domain in the quick tier), capacity gate has_demand_violation for Single- and MultiDimLoad (sound and complete w.r.t. the fit conditions; complete proofs, loops are the constant 8), "
-            "load algebra == element-wise spec, tour size gate exact (complete), distance-limit gate exact and duration-limit gate sound against a replay (bounded), skills gate (19 constant instances), reachability and compatibility gates exact (complete), job-group gate (bounded), multi-job dynamic demand checked in every reload interval from the insertion on (bounded), the combinator consulting every constraint (bounded <= 3); lemmas L01 (capacity conditions => no point of the interval exceeds capacity) and L06 (latest-arrival recurrence => later windows kept), any length." + GLUE,
+            "load algebra == element-wise spec, tour size gate exact (complete), distance-limit gate exact and duration-limit gate sound against a replay (bounded), skills gate (19 constant instances), reachability and compatibility gates exact (complete), locked-jobs gate (a bound job only on its vehicle; a foreign job only where a strict locked block stays contiguous and anchored; bounded, U01h), tour-order gate exact (bounded, U01i), job-group gate (bounded), multi-job dynamic demand checked in every reload interval from the insertion on (bounded), the combinator consulting every constraint (bounded <= 3); lemmas L01 (capacity conditions => no point of the interval exceeds capacity) and L06 (latest-arrival recurrence => later windows kept), any length." + GLUE,
             "Trusted: Kani/CBMC; stub environments of the extracted gates; meaning of cached latest_arrival / load vectors (U03a, U05c bounded); every search operator, goal assembly, "
-            "tour-order/break/reload/recharge/locking gates are NOT under contract: a mutation there is not detected.",
+            "break/reload/recharge/fast-service/area gates and lock rule construction are NOT under contract: a mutation there is not detected.",
             TECH_K, "§3 C01"),
     "C02": ("proof",
             "Primitives that move a job between buckets: JobRemovalTracker::try_remove_job (exact whole-state postcondition: job leaves one tour entirely and is queued once, locked/other routes/unassigned/ignored untouched, "
@@ -43,7 +43,7 @@ CLAIMS = {
     "C05": ("model_checking",
             "Stale-flag protocol: every mutable RouteContext accessor marks the context stale (Verus, unbounded); accept_route_state clears and recomputes exactly the stale routes, runs every hook once in order; "
             "accept_solution_state restarts until a full pass is change-free and leaves all routes fresh (bounded); schedule/statistics recomputation is independent of the previous cache content (bounded <= 2 activities); job-group tags of every route equal recomputation from its tour after every hand-over and insertion, whatever the stale flags (bounded, U05d); RedistributeSearch/RuinAndRecreate hand over aggregates computed after their last change of the tours, restore() computes aggregates then drops empty tours (ghost-state protocol proof, U05e)." + GLUE,
-            "Bounded Kani harnesses + Verus accessors; of the individual features' accept_* hooks groups (U05d), compatibility (U01g) and capacity states (U05c) are under contract; tour order, reloads, limits, fast service are NOT.",
+            "Bounded Kani harnesses + Verus accessors; of the individual features' accept_* hooks groups (U05d), compatibility (U01g) and capacity states (U05c) are under contract; tour-order violation count (U01i) too; reloads, limits, fast service are NOT.",
             TECH_M, "§3 C05"),
     "C06": ("proof",
             "Soundness: time-window gate and capacity gate accept only legs whose step simulation is feasible (complete Kani proofs, see C01). Completeness: on the exact (integer-valued) domain a feasible leg in a consistent tour "
@@ -98,8 +98,8 @@ CLAIMS = {
             "Trusted: Kani/CBMC; Network::compact passes (3,4); network shape contains the origin; contract_graph/Network::remap glue and all training code unverified.",
             TECH_K + " (loop-free, complete)", "§3 C19"),
     "C20": ("model_checking",
-            "Distance objective: estimate_leg's quoted delta equals total_distance(after) - total_distance(before) exactly, for empty tour (vehicle ending at a different location than it starts), first/last/open-end leg (bounded <= 1 existing job activity, integer-valued matrix); unassigned-jobs and number-of-tours objectives: quote == change (bounded); combined cost objective (estimate_route + estimate_activity, TransportCost::cost, ActivityCost::cost vs get_total_cost after update_route_schedule) with equal per-time rates and no waiting: quote == change (bounded <= 1 existing job activity, asymmetric matrix, U20c); lemma L20 (telescoping, any tour length).",
-            "Bounded Kani harnesses; total-value objective, the waiting-time correction of CostObjective and work-balance style objectives are not under contract.",
+            "Distance objective: estimate_leg's quoted delta equals total_distance(after) - total_distance(before) exactly, for empty tour (vehicle ending at a different location than it starts), first/last/open-end leg (bounded <= 1 existing job activity, integer-valued matrix); unassigned-jobs and number-of-tours objectives: quote == change (bounded); total value of served jobs incl. the constructor's estimate closure: quote == change, fitness == minus the total (bounded, U20d); combined cost objective (estimate_route + estimate_activity, TransportCost::cost, ActivityCost::cost vs get_total_cost after update_route_schedule) with equal per-time rates and no waiting: quote == change (bounded <= 1 existing job activity, asymmetric matrix, U20c); lemma L20 (telescoping, any tour length).",
+            "Bounded Kani harnesses; the waiting-time correction of CostObjective and the non-additive objectives (work balance, compactness, fast service) are not under contract.",
             TECH_K + " (bounded)", "§3 C20"),
 }
 
